@@ -1,7 +1,7 @@
 #!/bin/sh
 # usage: tools/runall.sh [quick|thorough]  — every claimed check in turn on the current tree
 T=${1:-quick}
-cd /verif
+cd "$(dirname "$0")/.."
 for id in $(python3 -c "import json; print(' '.join(c['property_id'] for c in json.load(open('MANIFEST.json'))['checks']))"); do
   ./check $id $T 2>&1 | grep -v "^\[INFO\]" | tail -3
 done
